@@ -471,7 +471,8 @@ fn cram_roundtrip(tier: &str) -> Result<String, String> {
     let refs: Vec<(String, Vec<u8>)> = vec![("sq0".into(), (0..260_000).map(base).collect()), ("sq1".into(), (0..260_000).map(|i| base(i + 17)).collect())];
     let header: sam::Header = format!("@HD\tVN:1.6\tSO:coordinate\n@SQ\tSN:sq0\tLN:{}\n@SQ\tSN:sq1\tLN:{}\n@RG\tID:rg0\n@RG\tID:rg1\n", refs[0].1.len(), refs[1].1.len()).parse().map_err(|e| format!("header: {e}"))?;
     let repo = noodles_fasta::Repository::new(refs.iter().map(|(n, s)| noodles_fasta::Record::new(noodles_fasta::record::Definition::new(n.clone(), None), noodles_fasta::record::Sequence::from(s.clone()))).collect::<Vec<_>>());
-    let qual = |n: usize, k: usize| -> String { (0..n).map(|i| (33 + 2 + ((i * 5 + k * 3) % 40)) as u8 as char).collect() };
+    // quality scores: mostly 12 common values; five values occur exactly once in the whole large set (relative frequency far below 1/4096)
+    let qual = |n: usize, k: usize| -> String { (0..n).map(|i| if i == 0 && [5000usize, 9000, 12000, 15000, 18000].contains(&k) { (33 + (k / 1000) % 30) as u8 as char } else if (i + k) % 97 == 0 { (33 + 45 + (i % 20)) as u8 as char } else { (33 + 30 + ((i * 5 + k * 3) % 12)) as u8 as char }).collect() };
     // ---- a small, varied record set (one multi-reference slice) ----
     let rbases = |r: usize, pos: usize, n: usize| -> String { String::from_utf8(refs[r].1[pos - 1..pos - 1 + n].to_vec()).unwrap() };
     let mutate = |s: &str, i: usize, c: char| -> String { let mut v: Vec<char> = s.chars().collect(); v[i] = if v[i] == c { 'T' } else { c }; v.into_iter().collect() };
@@ -502,7 +503,8 @@ fn cram_roundtrip(tier: &str) -> Result<String, String> {
     let nbig = 10240usize;
     for r in 0..2 { for i in 0..nbig { let pos = 1 + i * 25; let len = 20 + (i % 5) * 4; let mut sq = rbases(r, pos, len); if i % 7 == 3 { sq = mutate(&sq, i % len, 'A'); }
         let (cigar, sq) = if i % 11 == 5 { (format!("10M2I{}M", len - 10), format!("{}TT{}", &sq[..10], &sq[10..])) } else if i % 13 == 6 { (format!("10M4D{}M", len - 10), format!("{}{}", &sq[..10], rbases(r, pos + 14, len - 10))) } else { (format!("{len}M"), sq) };
-        let name = format!("read.{:04}.{:03}/{}", i / 7, i % 1000, 1 + i % 2);
+        // names: mostly constant-width padded fields; every 40th pair has a zero-padded number followed by a SHORTER, larger one
+        let name = if i % 40 == 10 { format!("lane.{:04}/1", 7 + (i / 40) % 90) } else if i % 40 == 11 { format!("lane.{:03}/1", 12 + (i / 40) % 90) } else { format!("read.{:04}.{:03}/{}", i / 7, i % 1000, 1 + i % 2) };
         push(&mut big, &name, if i % 3 == 0 { 16 } else { 0 }, if r == 0 { "sq0" } else { "sq1" }, pos, (i % 61) as u8, &cigar, "*", 0, 0, &sq, if i % 4 == 0 { "RG:Z:rg0" } else { "" }); } }
     for i in 0..600 { push(&mut big, &format!("unm.{i}"), 4, "*", 0, 0, "*", "*", 0, 0, "ACGTACGTAC", ""); }
     let parse = |lines: &Vec<String>| -> Result<Vec<sam::alignment::RecordBuf>, String> { let text: String = lines.concat(); let mut rd = sam::io::Reader::new(text.as_bytes()); rd.record_bufs(&header).collect::<Result<Vec<_>, _>>().map_err(|e| format!("sam: {e}")) };
